@@ -84,6 +84,7 @@ func runPropertyCheck(e *Engine, prop, tier string, seed int, t0 time.Time) int 
 	if cfg.extras != nil {
 		extras = cfg.extras(e, tier, seed)
 	}
+	extras = append(extras, e.contractEffects(keys)...)
 
 	// verdicts
 	groupOK := map[string]bool{}
@@ -238,7 +239,7 @@ func runPropertyCheck(e *Engine, prop, tier string, seed int, t0 time.Time) int 
 		fl = append(fl, k)
 	}
 	sort.Strings(fl)
-	var al []string
+	al := []string{}
 	for k := range assume {
 		al = append(al, k)
 	}
@@ -382,4 +383,48 @@ func parseTable(out string, backend string, wall float64) []ExtraResult {
 		rs = append(rs, ExtraResult{Name: m[1], Backend: backend, OK: m[3] == "true", Cases: n, Detail: strings.TrimSpace(m[4]) + " (exhaustive evaluation of the real code)", WallS: round3(wall)})
 	}
 	return rs
+}
+
+// contractEffects: `pure` clauses and the assigns clauses of trusted (body not symbolically executed) repository
+// functions in the closure are discharged by the effects back end on go/ssa.
+func (e *Engine) contractEffects(keys []string) []ExtraResult {
+	var need []string
+	for _, k := range keys {
+		con := e.cs.Funcs[k]
+		if con == nil || con.External || e.funcs[k] == nil {
+			continue
+		}
+		if con.Pure || (con.Trusted != "" && len(con.Assigns) > 0) {
+			need = append(need, k)
+		}
+	}
+	if len(need) == 0 {
+		return nil
+	}
+	ef := e.BuildEffects()
+	var obs []EffOb
+	for _, k := range need {
+		con := e.cs.Funcs[k]
+		if con.Pure {
+			obs = append(obs, ef.obPure(k))
+		}
+		names := paramNames(e.funcs[k], con, e.funcs[k].Obj)
+		allowed := map[int]bool{}
+		for _, a := range con.Assigns {
+			root := strings.TrimLeft(a.Src, "*( ")
+			for i, c := range root {
+				if !(c == '_' || c >= 'a' && c <= 'z' || c >= 'A' && c <= 'Z' || c >= '0' && c <= '9') {
+					root = root[:i]
+					break
+				}
+			}
+			for i, n := range names {
+				if n == root {
+					allowed[i] = true
+				}
+			}
+		}
+		obs = append(obs, ef.obWritesOnly(k, allowed), ef.obNoGlobalWrites(k))
+	}
+	return effExtras(obs)
 }
